@@ -217,7 +217,14 @@ def judge(prog: tuple, inject: tuple | None, refs: RefSet | None, real: Real, mo
             if label != "R" and T is not None and T.abort_info is not None:
                 found.append((f"group-abort-cancel/{situation(T.abort_info)}/{sym}", text))  # the group's cancel of this child
             elif kind == "timed":
-                found.append((f"external-cancel/{situation(inj, real)}/timed/{sym}", text))
+                sit = situation(inj, real)
+                if sit == "inside-shield" and any(e[0] == "exit" and e[2] for t in real.tasks for e in t.events):
+                    # one situation, many first-differing events (the trace goes wrong wherever the forgotten cancellation would have
+                    # landed): keyed by the situation - an external cancel absorbed inside a shielded section of a run in which a
+                    # scope is cancelled - with the symptom in the text.  Without any cancelled scope the symptom stays in the key.
+                    found.append(("external-cancel/inside-shield/timed/with-cancelled-scope", f"[{sym}] {text}"))
+                else:
+                    found.append((f"external-cancel/{sit}/timed/{sym}", text))
             else:
                 fam = "shield" if has_op(prog, ("shield", "syield")) else "plain"
                 if has_op(prog, ("group",)):
